@@ -1,6 +1,8 @@
 /-
   Line-protocol driver for the source-generated model (`Generated/Src/*.lean`):
-    <module.function> <arg> ...      args: s:<text> | n:<int or p/q> | N | T | F
+    <module.function> <arg> ...
+  args:   N | T | F | n:<int or p/q> | s:<text> | L(<arg>,<arg>,…) | D(<arg>=<arg>,…)      (no blanks inside an argument;
+          text must not contain , ( ) = : it is only ever hex digits, attribute names and labels)
   prints the canonical form of the returned Python value, `RE` (RuntimeError), `EXC` (other exception)
   or `NOFN` (function not translated).
 -/
@@ -14,19 +16,216 @@ partial def fmtVal : Val → String
   | .num q => if q.den = 1 then toString q.num else fmtRat q
   | .str s => if s.isEmpty then "''" else String.ofList s
   | .tuple l => "|".intercalate (l.map fmtVal)
+  | .dict l => "{" ++ ",".intercalate (l.map (fun kv => fmtVal kv.1 ++ "=" ++ fmtNested kv.2)) ++ "}"
+where
+  /-- inside a dictionary, lists are bracketed so that the structure stays readable -/
+  fmtNested : Val → String
+    | .tuple l => "[" ++ ",".intercalate (l.map fmtNested) ++ "]"
+    | .dict l => "{" ++ ",".intercalate (l.map (fun kv => fmtNested kv.1 ++ "=" ++ fmtNested kv.2)) ++ "}"
+    | v => fmtVal v
 
-def parseArg (w : String) : Option Val :=
-  if w == "N" then some .none
-  else if w == "T" then some (.bool true)
-  else if w == "F" then some (.bool false)
-  else if w.startsWith "s:" then some (.str (w.drop 2).toString.toList)
-  else if w.startsWith "n:" then (parseRat (w.drop 2).toString).map .num
-  else none
+/-- split at top-level commas (parentheses nest) -/
+def splitTop (s : List Char) : List (List Char) :=
+  let rec go (cs : List Char) (depth : Nat) (cur : List Char) (acc : List (List Char)) : List (List Char) :=
+    match cs with
+    | [] => (cur.reverse :: acc).reverse
+    | c :: rest =>
+      if c == '(' then go rest (depth + 1) (c :: cur) acc
+      else if c == ')' then go rest (depth - 1) (c :: cur) acc
+      else if c == ',' && depth == 0 then go rest depth [] (cur.reverse :: acc)
+      else go rest depth (c :: cur) acc
+  if s.isEmpty then [] else go s 0 [] []
+
+/-- position of the first top-level '=' -/
+def splitEq (s : List Char) : Option (List Char × List Char) :=
+  let rec go (cs : List Char) (depth : Nat) (pre : List Char) : Option (List Char × List Char) :=
+    match cs with
+    | [] => none
+    | c :: rest =>
+      if c == '(' then go rest (depth + 1) (c :: pre)
+      else if c == ')' then go rest (depth - 1) (c :: pre)
+      else if c == '=' && depth == 0 then some (pre.reverse, rest)
+      else go rest depth (c :: pre)
+  go s 0 []
+
+partial def parseVal (w : List Char) : Option Val :=
+  match w with
+  | ['N'] => some .none
+  | ['T'] => some (.bool true)
+  | ['F'] => some (.bool false)
+  | 's' :: ':' :: rest => some (.str rest)
+  | 'n' :: ':' :: rest => (parseRat (String.ofList rest)).map .num
+  | 'L' :: '(' :: rest =>
+    if rest.getLast? == some ')' then
+      ((splitTop rest.dropLast).mapM parseVal).map .tuple
+    else none
+  | 'D' :: '(' :: rest =>
+    if rest.getLast? == some ')' then
+      ((splitTop rest.dropLast).mapM (fun kv => do
+        let (k, v) ← splitEq kv
+        pure (← parseVal k, ← parseVal v))).map .dict
+    else none
+  | _ => none
+
+def bytesOfHex (s : String) : List Nat :=
+  let rec go : List Char → List Nat
+    | a :: b :: rest => (hexVal a * 16 + hexVal b) :: go rest
+    | _ => []
+  go s.toList
+
+def splitAtCuts (l : List Nat) (cuts : List Nat) : List (List Nat) :=
+  let rec go (l : List Nat) (pos : Nat) : List Nat → List (List Nat)
+    | [] => [l]
+    | c :: cs => if c ≤ pos then go l pos cs else (l.take (c - pos)) :: go (l.drop (c - pos)) c cs
+  go l 0 cuts
+
+def msgTexts (ms : Val) : List String :=
+  match ms with
+  | .tuple l => l.filterMap (fun m => match m with
+    | .tuple (.str t :: _) => some (if t.isEmpty then "" else String.ofList t)
+    | _ => none)
+  | _ => []
+
+/-- `!feed <Class_method> <datatype> <hex bytes> <cuts>`: what the harness does with the real client — extend
+    `self.buffer` by each piece, call the reader method, collect the message texts -/
+def feedOp (method datatype raw cuts : String) : String :=
+  let pieces := splitAtCuts (bytesOfHex raw) (if cuts == "-" then [] else (cuts.splitOn ",").filterMap String.toNat?)
+  let self0 : Val := .dict [(attrKey "buffer", .tuple []), (attrKey "datatype", .str datatype.toList)]
+  let step (acc : Option Val × List String × Option String) (piece : List Nat) : Option Val × List String × Option String :=
+    match acc with
+    | (some self, out, none) =>
+      match (do
+        let buf ← pyGetAttr self "buffer"
+        let buf' ← pyExtend buf (.tuple (piece.map Val.ofNat))
+        let self' ← pySetAttr self "buffer" buf'
+        let r ← (match Gen.dispatch method [self'] with | some x => x | none => .exc)
+        pure (← pyIdxN r 0, ← pyIdxN r 1) : Res (Val × Val)) with
+      | .val (self'', ms) => (some self'', out ++ msgTexts ms, none)
+      | .rte => (none, out, some "RE")
+      | .exc => (none, out, some "EXC")
+    | other => other
+  match pieces.foldl step (some self0, [], none) with
+  | (_, _, some e) => e
+  | (_, out, none) => if out.isEmpty then "-" else ",".intercalate out
+
+def joinMsgs (v : Val) : String :=
+  match v with
+  | .tuple l =>
+    let ts := l.filterMap (fun m => match m with | .str t => some (String.ofList t) | _ => none)
+    if ts.isEmpty then "-" else ",".intercalate ts
+  | _ => "?"
+
+/-- `!ns <Class_method> m1,m2;m3;…`: calls of handle_messages on one source object; per call what was sent on the pipe,
+    then the pending local buffers (same format as the harness adapter) -/
+def nsOp (method calls : String) : String :=
+  let self0 : Val := .dict [
+    (attrKey "stop_flag", .dict [(attrKey "value", .bool false)]), (attrKey "raw_pipe_in", .none),
+    (attrKey "local_buffer_adsb_msg", .tuple []), (attrKey "local_buffer_adsb_ts", .tuple []),
+    (attrKey "local_buffer_commb_msg", .tuple []), (attrKey "local_buffer_commb_ts", .tuple [])]
+  let cs := (calls.splitOn ";").map (fun c => if c == "-" then [] else c.splitOn ",")
+  let nOut (self : Val) : Nat := match pyGetAttr self "__out__" with | .val (.tuple es) => es.length | _ => 0
+  let lastSent (self : Val) : String := match pyGetAttr self "__out__" with
+    | .val (.tuple es) => (match es.getLast? with
+      | some (.tuple [_, .tuple [d]]) =>
+        (match pyIdx d (attrKey "adsb_msg"), pyIdx d (attrKey "commb_msg") with
+        | .val a, .val b => "S:" ++ joinMsgs a ++ "/" ++ joinMsgs b
+        | _, _ => "S:?")
+      | _ => "S:?")
+    | _ => "S:?"
+  let step (acc : Option Val × List String × Nat) (c : List String) : Option Val × List String × Nat :=
+    match acc with
+    | (some self, outs, t) =>
+      let msgs : Val := .tuple (c.zipIdx.map (fun (m, i) => .tuple [.str m.toList, Val.ofNat (t + i + 1)]))
+      (match Gen.dispatch method [self, msgs] with
+      | some (.val r) =>
+        (match pyIdxN r 0 with
+        | .val self' => (some self', outs ++ [if nOut self' > nOut self then lastSent self' else "N"], t + c.length)
+        | _ => (none, outs ++ ["EXC"], t))
+      | some .rte => (none, outs ++ ["RE"], t)
+      | _ => (none, outs ++ ["EXC"], t))
+    | other => other
+  match cs.foldl step (some self0, [], 0) with
+  | (some self, outs, _) =>
+    let pend (k : String) := match pyGetAttr self k with | .val v => joinMsgs v | _ => "?"
+    ";".intercalate outs ++ "|P:" ++ pend "local_buffer_adsb_msg" ++ "/" ++ pend "local_buffer_commb_msg"
+  | (none, outs, _) => ";".intercalate outs
+
+/-- `!demod <Class_method> <den> <samples>;<samples>;…`: one reader object (noise floor 1e6, debug off), one call of
+    `_process_buffer` per sample buffer; per call the message texts and the length of what is left in the buffer -/
+def demodOp (method den bufs : String) : String :=
+  let d : Rat := ((den.toNat?).getD 1 : Nat)
+  let self0 : Val := .dict [(attrKey "signal_buffer", .tuple []), (attrKey "noise_floor", .num 1000000),
+    (attrKey "debug", .bool false)]
+  let step (acc : Option Val × List String) (samples : String) : Option Val × List String :=
+    match acc with
+    | (some self, outs) =>
+      let buf : List Val := (samples.splitOn ",").filterMap (fun t => (t.toInt?).map (fun (i : Int) => Val.num ((i : Rat) / d)))
+      (match (do
+          let self' ← pySetAttr self "signal_buffer" (.tuple buf)
+          let r ← (match Gen.dispatch method [self'] with | some x => x | none => .exc)
+          let self'' ← pyIdxN r 0
+          let ms ← pyIdxN r 1
+          let rest ← pyLen (← pyGetAttr self'' "signal_buffer")
+          pure (self'', ms, rest) : Res (Val × Val × Val)) with
+      | .val (self'', ms, rest) =>
+        let ts := msgTexts ms
+        (some self'', outs ++ [(if ts.isEmpty then "-" else ",".intercalate ts) ++ "|" ++ fmtVal rest])
+      | .rte => (none, outs ++ ["RE"])
+      | .exc => (none, outs ++ ["EXC"]))
+    | other => other
+  ";".intercalate ((bufs.splitOn ";").foldl step (some self0, [])).2
+
+def parseItemsV (s : String) : List (Val × Val) :=
+  if s == "-" then [] else
+  (s.splitOn "+").filterMap (fun it => match it.splitOn "@" with
+    | [t, m] => some (.num ((parseRat t).getD 0), .str m.toList)
+    | _ => none)
+
+def insertStr (x : String) : List String → List String
+  | [] => [x]
+  | y :: ys => if y < x then y :: insertStr x ys else x :: y :: ys
+
+/-- `!trk <Class_method> <lat,lon | -> <tnow~adsb~commb>;…`: one Decode object, one `process_raw` call per item; the
+    aircraft table after every call in the canonical form of the harness (`KEY=live,lat,lon,tpos`, sorted) -/
+def trkOp (method ref calls : String) : String :=
+  let (la, lo) : Val × Val := match ref.splitOn "," with
+    | [a, b] => (.num ((parseRat a).getD 0), .num ((parseRat b).getD 0))
+    | _ => (.none, .none)
+  let self0 : Val := .dict [(attrKey "acs", .dict []), (attrKey "lat0", la), (attrKey "lon0", lo), (attrKey "t", .num 0),
+    (attrKey "cache_timeout", .num 60), (attrKey "dumpto", .none)]
+  let fmtTable (self : Val) : String :=
+    match pyGetAttr self "acs" with
+    | .val (.dict l) =>
+      let rows := l.map (fun kv =>
+        let g (k : String) : String := match pyDictGet kv.2 (attrKey k) .none with | .val v => fmtVal v | _ => "?"
+        fmtVal kv.1 ++ "=" ++ ",".intercalate [g "live", g "lat", g "lon", g "tpos"])
+      let sorted := rows.foldr insertStr []
+      if sorted.isEmpty then "-" else "&".intercalate sorted
+    | _ => "?"
+  let step (acc : Option Val × List String) (c : String) : Option Val × List String :=
+    match acc.1, c.splitOn "~" with
+    | some self, [tnow, a, b] =>
+      let av := parseItemsV a
+      let bv := parseItemsV b
+      let args : List Val := [self, .tuple (av.map (·.1)), .tuple (av.map (·.2)), .tuple (bv.map (·.1)), .tuple (bv.map (·.2)),
+        .num ((parseRat tnow).getD 0)]
+      (match Gen.dispatch method args with
+      | some (.val r) => (match pyIdxN r 0 with
+        | .val self' => (some self', acc.2 ++ [fmtTable self'])
+        | _ => (none, acc.2 ++ ["EXC"]))
+      | some .rte => (none, acc.2 ++ ["RE"])
+      | _ => (none, acc.2 ++ ["EXC"]))
+    | _, _ => (none, acc.2 ++ ["X"])
+  ";".intercalate ((calls.splitOn ";").foldl step (some self0, [])).2
 
 def handleGen (ws : List String) : String :=
   match ws with
+  | ["!trk", method, ref, calls] => trkOp method ref calls
+  | ["!demod", method, den, bufs] => demodOp method den bufs
+  | ["!feed", method, datatype, raw, cuts] => feedOp method datatype raw cuts
+  | ["!ns", method, calls] => nsOp method calls
   | name :: args =>
-    match args.mapM parseArg with
+    match args.mapM (fun a => parseVal a.toList) with
     | none => "BADARG"
     | some vs =>
       match Gen.dispatch name vs with
